@@ -146,7 +146,7 @@ struct Driver {
     int mb_target = -1; std::function<void()> mb_fn; bool mb_done = false; bool mb_quit = false;
     std::atomic<int> mb_ready{0};
     std::vector<std::unique_ptr<struct VJob>> jobs;
-    bool typed_fresh[4] = {true, true, true, true};
+    bool typed_fresh[5] = {true, true, true, true, true};
     struct JobAct { uint32_t idx; bool getmut; Entity e; int pal; };
     std::vector<JobAct> job_acts;
     std::vector<std::string> job_do;   // structural calls the callback of the next runjob makes while it handles entity 0   // what the callback of the next runjob does while it processes entity number idx
@@ -555,7 +555,10 @@ struct TJ0 : PerEntityJob<TJ0> { TYPED_TASKS(TJ0) void operator()(Entity e, P0& 
 struct TJ1 : PerEntityJob<TJ1> { TYPED_TASKS(TJ1) void operator()(Entity e, const P0& a, const P1* b, JobInvocationIndex ii) { trec(ii, e, {tval(&a), tval(b)}); } };
 struct TJ2 : PerEntityJob<TJ2> { TYPED_TASKS(TJ2) void operator()(Entity e, N2& a, const A4& b, JobInvocationIndex ii) { trec(ii, e, {tval(&a), tval(&b)}); } };
 struct TJ3 : PerEntityJob<TJ3> { TYPED_TASKS(TJ3) void operator()(Entity e, const N2* a, P1& b, JobInvocationIndex ii) { trec(ii, e, {tval(a), tval(&b)}); } };
-static const std::vector<std::vector<int>> kTypedPals = {{0}, {0, 1}, {2, 4}, {2, 1}};
+// TJ4: a shared component among the arguments (by reference: the archetype's one instance for every entity of the archetype)
+static std::string sval(const S0& s) { return "S" + std::to_string(g_drv->sid[0].toInt()) + "=" + std::to_string(s.v); }
+struct TJ4 : PerEntityJob<TJ4> { TYPED_TASKS(TJ4) void operator()(Entity e, const P0& a, const S0& s, JobInvocationIndex ii) { trec(ii, e, {tval(&a), sval(s)}); } };
+static const std::vector<std::vector<int>> kTypedPals = {{0}, {0, 1}, {2, 4}, {2, 1}, {0}};
 
 struct JobSpec { std::vector<std::pair<int, int>> reqs; /* pal, flags: 1 const, 2 optional */ std::vector<int> check; };
 
@@ -798,13 +801,14 @@ static std::string run_script(const std::vector<std::string>& lines, std::ostrea
             R << "last=" << job.last_update_version_.toInt();
             for (auto& v : arrays) R << " " << v.second;
         }
-        else if (op == "runtyped") { // runtyped <k 0..3> <mode 0 current thread, 1 parallel> [forced task count]
+        else if (op == "runtyped") { // runtyped <k 0..4> <mode 0 current thread, 1 parallel> [forced task count]
             size_t k; int mode; uint32_t tasks = 0; in >> k >> mode; in >> tasks;
             for (int p : kTypedPals[k]) do_register(p, 0);
-            static thread_local std::unique_ptr<BaseJob> tj[4];
+            static thread_local std::unique_ptr<BaseJob> tj[5];
+            if (k == 4) do_register_shared(0);
             if (d.typed_fresh[k]) { d.typed_fresh[k] = false;
                 switch (k) { case 0: tj[0] = std::make_unique<TJ0>(); break; case 1: tj[1] = std::make_unique<TJ1>(); break;
-                             case 2: tj[2] = std::make_unique<TJ2>(); break; default: tj[3] = std::make_unique<TJ3>(); break; } }
+                             case 2: tj[2] = std::make_unique<TJ2>(); break; case 3: tj[3] = std::make_unique<TJ3>(); break; default: tj[4] = std::make_unique<TJ4>(); break; } }
             g_typed.visits.clear(); g_typed.forced = tasks;
             tj[k]->run(*d.world, mode == 1 ? JobRunMode::kParallel : JobRunMode::kCurrentThread);
             if (!g_typed.visits.empty()) d.epoch++;
